@@ -525,8 +525,91 @@ fn run_class(c: &ClassCase) -> Outcome {
     Outcome::pass_with(near || want != VerifAddrKind::Ip, classes)
 }
 
+// ---------- (c) receive path of a live endpoint ----------
+
+#[derive(Debug, Clone, Serialize, Deserialize)]
+enum Src {
+    /// relay path `relay_key(k)`
+    Relay(u8),
+    /// plain IPv4 source
+    Ip(u8),
+}
+
+#[derive(Debug, Clone, Serialize, Deserialize)]
+struct RecvCase {
+    /// batches of datagram sources, as the transports hand them to the socket
+    batches: Vec<Vec<Src>>,
+}
+
+fn recv_strategy() -> impl Strategy<Value = RecvCase> {
+    // few keys, so that the same endpoint over different relays and the same relay for different
+    // endpoints meet in adjacent slots
+    let src = prop_oneof![5 => (0u8..KEYS as u8).prop_map(Src::Relay), 3 => prop_oneof![Just(0u8), Just(1), Just(3), Just(4), Just(6)].prop_map(Src::Relay), 1 => (0u8..4).prop_map(Src::Ip)];
+    proptest::collection::vec(proptest::collection::vec(src, 1..8), 1..5).prop_map(|batches| RecvCase { batches })
+}
+
+fn run_recv(c: &RecvCase) -> Outcome {
+    use crate::support::e2e;
+    e2e::run(1, async {
+        let ep = e2e::bind(e2e::builder()).await;
+        let maps = iroh::verif::socket::endpoint_mapped_addrs(&ep);
+        let mut seen: HashMap<(RelayUrl, EndpointId), SocketAddr> = HashMap::new();
+        let mut adjacent_same_endpoint = false;
+        let mut out = None;
+        'outer: for (bi, batch) in c.batches.iter().enumerate() {
+            let sources: Vec<Addr> = batch
+                .iter()
+                .map(|s| match s {
+                    Src::Relay(k) => { let (u, e) = relay_key(*k); Addr::Relay(u, e) }
+                    Src::Ip(i) => Addr::Ip(SocketAddr::from((Ipv4Addr::new(192, 0, 2, 1 + *i), 4000 + *i as u16))),
+                })
+                .collect();
+            for w in batch.windows(2) {
+                if let (Src::Relay(a), Src::Relay(b)) = (&w[0], &w[1]) {
+                    if a != b && relay_key(*a).1 == relay_key(*b).1 { adjacent_same_endpoint = true; }
+                }
+            }
+            let shown = iroh::verif::socket::process_batch(&ep, &sources, 32);
+            for (i, (src, addr)) in sources.iter().zip(shown.iter()).enumerate() {
+                match src {
+                    Addr::Relay(url, id) => {
+                        if classify(*addr) != VerifAddrKind::Relay {
+                            out = Some(Outcome::violation("C18:recv-kind", format!("batch {bi} slot {i}: a datagram from relay path ({url}, {}) is shown to QUIC under {addr}, which is not a relay mapped address", id.fmt_short())));
+                            break 'outer;
+                        }
+                        let back = maps.to_transport_addr(*addr);
+                        if back != Some(Addr::Relay(url.clone(), *id)) {
+                            out = Some(Outcome::violation("C18:recv-shared-address", format!("batch {bi} slot {i}: a datagram from relay path ({url}, {}) is shown under {addr}, which translates back to {back:?}", id.fmt_short())));
+                            break 'outer;
+                        }
+                        if let Some(prev) = seen.insert((url.clone(), *id), *addr) {
+                            if prev != *addr {
+                                out = Some(Outcome::violation("C18:unstable-address", format!("relay path ({url}, {}) was shown under {prev} and later under {addr}", id.fmt_short())));
+                                break 'outer;
+                            }
+                        }
+                    }
+                    // plain IP datagrams keep the address the IP transport put into the meta
+                    _ => {}
+                }
+            }
+        }
+        if out.is_none() {
+            let mut by_addr: HashMap<SocketAddr, (RelayUrl, EndpointId)> = HashMap::new();
+            for (k, a) in &seen {
+                if let Some(other) = by_addr.insert(*a, k.clone()) {
+                    out = Some(Outcome::violation("C18:recv-shared-address", format!("relay paths {other:?} and {k:?} share the address {a}")));
+                    break;
+                }
+            }
+        }
+        ep.close().await;
+        out.unwrap_or_else(|| Outcome::pass_with(adjacent_same_endpoint, vec![if adjacent_same_endpoint { "same-endpoint-two-relays-adjacent" } else { "no-adjacent-pair" }]))
+    })
+}
+
 pub fn run(ctx: &Ctx) {
-    ctx.rule("part concurrent: 2..8 (thorough: 2..16) free-running threads released from a spinning barrier, each with a generated list (1..40) of get(key) / lookup(published address of key) / lookup(never-issued address) over the three production maps and 12 keys per map (keys overlap in components), lists identical / rotated / independent; each case repeated on fresh maps (quick 60x, thorough 150x; a replay 5000x); oracle per repetition: all get(k) equal, different keys different addresses (across maps too), address in the map's reserved /64 and classified as its kind, every lookup of an issued address yields exactly its key, never-issued addresses yield nothing, sequential re-check afterwards incl. to_transport_addr; non-trivial = at least two threads start with get of the same fresh key | part classify: IPv4, addresses in fd15:070a:510b::/48 with subnet 0..5 (and non-zero high subnet byte), single-bit/byte edits of the first 8 bytes, IPv4-mapped, random; any port/flowinfo/scope; reference classifier on the first 8 bytes; non-trivial = mapped kind or near miss");
+    ctx.rule("part recv_path: batches of datagram sources (relay paths over 3 urls x 4 endpoint ids, plain IPs) pushed through the receive-path address translation of a live endpoint; every relay datagram must be shown to QUIC under a relay mapped address that translates back to exactly its (url, endpoint id), stays the same across batches and is shared with no other path; non-trivial = the same endpoint id over two different relays in adjacent slots | part concurrent: 2..8 (thorough: 2..16) free-running threads released from a spinning barrier, each with a generated list (1..40) of get(key) / lookup(published address of key) / lookup(never-issued address) over the three production maps and 12 keys per map (keys overlap in components), lists identical / rotated / independent; each case repeated on fresh maps (quick 60x, thorough 150x; a replay 5000x); oracle per repetition: all get(k) equal, different keys different addresses (across maps too), address in the map's reserved /64 and classified as its kind, every lookup of an issued address yields exactly its key, never-issued addresses yield nothing, sequential re-check afterwards incl. to_transport_addr; non-trivial = at least two threads start with get of the same fresh key | part classify: IPv4, addresses in fd15:070a:510b::/48 with subnet 0..5 (and non-zero high subnet byte), single-bit/byte edits of the first 8 bytes, IPv4-mapped, random; any port/flowinfo/scope; reference classifier on the first 8 bytes; non-trivial = mapped kind or near miss");
     ctx.assume("a freshly generated never-issued address collides with an issued one with probability 2^-64 per lookup; such an event is skipped, not judged");
     ctx.assume("the generate-until-unique retry loop of AddrMap::get is not reachable by testing (2^-64)");
     let k = ctx.tier.pick(1, 10);
@@ -540,4 +623,5 @@ pub fn run(ctx: &Ctx) {
         |c: &ConcCase| run_conc(c, if ctx.is_replay() { 5_000 } else { reps }, &keys),
     );
     ctx.explore("classify", ExploreOpts::new(60_000 * k), class_strategy, run_class);
+    ctx.explore("recv_path", ExploreOpts::new(200 * k).workers(4).shrink(60), recv_strategy, run_recv);
 }
